@@ -836,6 +836,15 @@ class RTDCBase(abc.ABC):
                     f"Encountered cyclic basin dependency '{bdict['key']}'",
                     feat_basin.CyclicBasinDependencyFoundWarning)
                 continue
+            if (bdict["type"] in ["internal", "file", "remote"]
+                    and bc[bdict["format"]].basin_type != bdict["type"]):
+                # E.g. a "remote" basin with the "hdf5" format would open a
+                # file on the local file system without any of the checks
+                # in place for "file"-type basins.
+                warnings.warn(
+                    f"Basin type '{bdict['type']}' does not match the "
+                    f"basin format '{bdict['format']}', ignoring basin!")
+                continue
 
             # Basin initialization keyword arguments
             kwargs = {
